@@ -883,7 +883,7 @@ def main(tier):
         else:
             nsmall, nbig = len(fams), len(fams)
         small_only = fams[nbig:nsmall]
-        full = extra + fams[:nbig]
+        full = fams[:nbig] + extra
         v = measure(chk, pool, full, ('compile',), 'compile', stats, big=True, group='compile',
                     deep_all=(tier == 'quick'))
         if small_only and v < CAP:
